@@ -5,7 +5,9 @@ producer of `Content-Encoding` that the encode handler in front trusts (`init` s
 set). For each accepted coding, in order: not configured → next; `Stat` of the sidecar fails or it is a
 directory → next; `Open` fails → next (503: give up with that error); otherwise the sidecar is what is served:
 ONLY NOW `Content-Encoding` is set (and `Accept-Ranges` removed), the ETag is taken from the sidecar, and the
-loop ends. No sidecar → the plain file. Then: other methods than GET / HEAD → 405.
+loop ends. No sidecar → the plain file. Then: other methods than GET / HEAD → 405. An error raised AFTER the
+sidecar was chosen (its etag file cannot be read; 405) removes the header again (commit ce4ac64; `dropOnError =
+false` is the code of before: `Props.sidecar_error_old_code_fails`).
 
 `headerFirst = true` is the variant that announces the coding BEFORE the open ("describe the representation
 first"): `Props.sidecar_header_first_mislabels`. `Props.sidecar_header_matches_body`: for the code as it is,
@@ -36,26 +38,27 @@ inductive SideRes where
 deriving DecidableEq, Repr
 
 /-- the loop: returns the header it leaves, what it has opened, or the error it ends with -/
-def sidecarLoop (headerFirst : Bool) (configured : Bytes → Bool) (state : Bytes → SideState) (etagFails : Bool) :
+def sidecarLoop (headerFirst dropOnError : Bool) (configured : Bytes → Bool) (state : Bytes → SideState)
+    (etagFails : Bool) :
     List Bytes → Option Bytes → (Option Bytes × Option Served) ⊕ (Nat × Option Bytes)
   | [], ce => .inl (ce, none)
   | ae :: rest, ce =>
-    if !configured ae then sidecarLoop headerFirst configured state etagFails rest ce
+    if !configured ae then sidecarLoop headerFirst dropOnError configured state etagFails rest ce
     else match state ae with
-      | .absent => sidecarLoop headerFirst configured state etagFails rest ce
+      | .absent => sidecarLoop headerFirst dropOnError configured state etagFails rest ce
       | .openRefused =>
-        sidecarLoop headerFirst configured state etagFails rest (if headerFirst then some ae else ce)
+        sidecarLoop headerFirst dropOnError configured state etagFails rest (if headerFirst then some ae else ce)
       | .openFatal => .inr (503, if headerFirst then some ae else ce)
-      | .ok => if etagFails then .inr (500, some ae) else .inl (some ae, some (.sidecar ae))
+      | .ok => if etagFails then .inr (500, if dropOnError then none else some ae) else .inl (some ae, some (.sidecar ae))
 
 /-- `ServeHTTP` from the sidecar loop on: `post` = a method other than GET / HEAD, `head` = HEAD -/
-def serveFile (headerFirst : Bool) (accepted : List Bytes) (configured : Bytes → Bool) (state : Bytes → SideState)
+def serveFile (headerFirst dropOnError : Bool) (accepted : List Bytes) (configured : Bytes → Bool) (state : Bytes → SideState)
     (etagFails post head : Bool) : SideRes :=
-  match sidecarLoop headerFirst configured state etagFails accepted none with
+  match sidecarLoop headerFirst dropOnError configured state etagFails accepted none with
   | .inr (status, ce) => .error status ce
   | .inl (ce, opened) =>
     if opened.isNone && etagFails then .error 500 ce
-    else if post then .error 405 ce
+    else if post then .error 405 (if dropOnError then none else ce)
     else .served 200 ce (if head then none else some (match opened with | some s => s | none => .plain))
 
 /-- the coding a body is in -/
